@@ -5,7 +5,7 @@ import PngVerif.Proofs.ReaderPathsSkip
 `frameInto_skip`: skipping the rest of a frame ends where `next_frame` ends.  `skip_agrees`:
 `next_frame_info` called anywhere inside a frame returns what it returns after the frame was decoded
 by `next_frame`, and leaves the same reader up to the scratch length and the cached transformation
-(`Sim True`) — so by `run_sim` every later call returns the same result.
+(`PSim True`) — so by `run_psim` every later call returns the same result.
 -/
 namespace Png.Reader
 open Png Png.Framing
@@ -311,7 +311,7 @@ theorem nextFrameInfo_closed (cfg : Cfg) (t : TCfg) (r : R) (n : Nat) (hcaf : r.
     | error e => rfl
     | ok u => simp only; cases infoOf r2 >>= (·.fctl) <;> rfl
 
-theorem nextFrameInfo_end (cfg : Cfg) (t : TCfg) (r : R) (h : (if r.sub.caf then r.remaining else r.remaining - 1) = 0) :
+theorem nextFrameInfo_pend (cfg : Cfg) (t : TCfg) (r : R) (h : (if r.sub.caf then r.remaining else r.remaining - 1) = 0) :
     nextFrameInfo cfg t r = (r, .err .parameter "PolledAfterEndOfImage") := by
   unfold nextFrameInfo
   cases hcaf : r.sub.caf with
@@ -351,7 +351,7 @@ theorem skip_agrees (cfg : Cfg) {t : TCfg} (ht : t.Ok) {r rE : R} {i : Info} {bu
     (hW : frameInto cfg t r buf = (rE, .frame oi B, B)) :
     (nextFrameInfo cfg t r).2 = (nextFrameInfo cfg t rE).2 ∧
     (∀ fc, (nextFrameInfo cfg t rE).2 = .frameInfo fc →
-      Sim True (nextFrameInfo cfg t rE).1 (nextFrameInfo cfg t r).1) := by
+      PSim True (nextFrameInfo cfg t rE).1 (nextFrameInfo cfg t r).1) := by
   obtain ⟨x, hx⟩ := frameInto_skip cfg ht hI hi hW
   have hsp := finishDecoding_spec cfg (clearCur r) hI.clearCur rfl
   cases hs : skipRest cfg r with
@@ -368,8 +368,8 @@ theorem skip_agrees (cfg : Cfg) {t : TCfg} (ht : t.Ok) {r rE : R} {i : Info} {bu
     cases hn : rs.remaining with
     | zero =>
       -- no frame left: both calls report the end of the image and change nothing
-      rw [nextFrameInfo_end cfg t r (by rw [hcaf]; simp only [Bool.false_eq_true, if_false]; omega),
-        nextFrameInfo_end cfg t (rs.setLocal x) (by rw [hcafE]; simp only [if_true]; rw [hremE, hn])]
+      rw [nextFrameInfo_pend cfg t r (by rw [hcaf]; simp only [Bool.false_eq_true, if_false]; omega),
+        nextFrameInfo_pend cfg t (rs.setLocal x) (by rw [hcafE]; simp only [if_true]; rw [hremE, hn])]
       exact ⟨rfl, fun fc h => by cases h⟩
     | succ n =>
       rw [nextFrameInfo_open cfg t r n hcaf (by omega), hs, nextFrameInfo_closed cfg t (rs.setLocal x) n hcafE (by rw [hremE, hn])]
@@ -390,8 +390,8 @@ theorem skip_agrees (cfg : Cfg) {t : TCfg} (ht : t.Ok) {r rE : R} {i : Info} {bu
             simp only at hfc
             subst hfc
             exact absurd hadv.1 (by simp [Res.isErr])
-      show Sim True (afterSkip cfg t (rs.setLocal x)).1 (skipThen cfg t (rs, .ok ())).1
+      show PSim True (afterSkip cfg t (rs.setLocal x)).1 (skipThen cfg t (rs, .ok ())).1
       rw [k2 hok]
-      exact (Sim.symm ⟨x.scratchLen, x.cached, rfl, Or.inr trivial⟩)
+      exact (PSim.symm ⟨x.scratchLen, x.cached, rfl, Or.inr trivial⟩)
 
 end Png.Reader
